@@ -1175,6 +1175,35 @@ class Normalizer:
             ast.copy_location(loop, st)
             ast.fix_missing_locations(loop)
             return self._stmt(loop, cls, depth)
+        # `for a, v in zip(NAMES, f())` over a display of n names and a computed tuple: the rows (name_i, t[i]) of `t = f()`
+        # (model assumption, as for `a, b, c = f()`: the computed tuple has the display's length)
+        if isinstance(st, ast.For) and not st.orelse and isinstance(st.iter, ast.Call) and isinstance(st.iter.func, ast.Name) \
+                and st.iter.func.id == "zip" and len(st.iter.args) == 2 and not st.iter.keywords:
+            _b = getattr(self, "_iter_bind", None) or {}
+            ds = [self._display_of(x, _b, False) for x in st.iter.args]
+            if (ds[0] is None) != (ds[1] is None):
+                di = 0 if ds[0] is not None else 1
+                disp, other = ds[di], st.iter.args[1 - di]
+                if 0 < len(disp.elts) <= 4 and isinstance(other, (ast.Call, ast.Name)) and not isinstance(other, ast.Starred) \
+                        and not (isinstance(other, ast.Call) and isinstance(other.func, ast.Name) and other.func.id in ("range", "enumerate", "iter", "map", "zip")):
+                    self._zipn = getattr(self, "_zipn", 0) + 1
+                    tmp = other.id if isinstance(other, ast.Name) else f"zipped__{self._zipn}"
+                    rows = []
+                    for i_, d_ in enumerate(disp.elts):
+                        sub_ = ast.Subscript(value=ast.Name(id=tmp, ctx=ast.Load()), slice=ast.Constant(value=i_), ctx=ast.Load())
+                        pair = [copy.deepcopy(d_), sub_] if di == 0 else [sub_, copy.deepcopy(d_)]
+                        rows.append(ast.Tuple(elts=pair, ctx=ast.Load()))
+                    loop = copy.copy(st)
+                    loop.iter = ast.Tuple(elts=rows, ctx=ast.Load())
+                    outs = []
+                    if not isinstance(other, ast.Name):
+                        outs.append(ast.copy_location(ast.Assign(targets=[ast.Name(id=tmp, ctx=ast.Store())], value=other, lineno=st.lineno), st))
+                    outs.append(loop)
+                    res = []
+                    for o_ in outs:
+                        ast.fix_missing_locations(o_)
+                        res.extend(self._stmt(o_, cls, depth))
+                    return res
         if isinstance(st, (ast.Return, ast.Assign, ast.Expr, ast.AugAssign)) and st.value is not None:
             for n in ast.walk(st.value):
                 if isinstance(n, ast.Call) and isinstance(n.func, ast.Attribute) and n.func.attr == "join" and len(n.args) == 1 and not n.keywords \
@@ -1345,6 +1374,41 @@ class Normalizer:
                 ast.fix_missing_locations(loop)
                 out.extend(self._stmt(loop, cls, depth))
             return out
+        # a *search* over a short display: `for a, b in ((x1, y1), (x2, y2)): if T: BODY; break` [else: E]  is the chain
+        # a, b = x1, y1; if T: BODY  else: a, b = x2, y2; if T: BODY else: E
+        if isinstance(st, ast.For) and isinstance(st.iter, (ast.Tuple, ast.List)) and 0 < len(st.iter.elts) <= 4 \
+                and len(st.body) == 1 and isinstance(st.body[0], ast.If) and not st.body[0].orelse and st.body[0].body \
+                and isinstance(st.body[0].body[-1], ast.Break) \
+                and not any(isinstance(n, (ast.Break, ast.Continue)) for n in _walk_own(st.body[0].body[:-1], loops=False)) \
+                and not any(isinstance(n, (ast.Break, ast.Continue)) for n in _walk_own(st.orelse, loops=False)):
+            tnames = [x.id for x in st.target.elts] if (isinstance(st.target, ast.Tuple) and all(isinstance(x, ast.Name) for x in st.target.elts)) \
+                else ([st.target.id] if isinstance(st.target, ast.Name) else None)
+            rows = []
+            for r in st.iter.elts:
+                cells = list(r.elts) if (isinstance(st.target, ast.Tuple) and isinstance(r, (ast.Tuple, ast.List))) else [r]
+                rows.append(cells)
+            simple = tnames is not None and all(len(c) == len(tnames) and all(isinstance(x, (ast.Name, ast.Attribute, ast.Constant, ast.Subscript))
+                                                                              or _signed_literal(x) for x in c) for c in rows)
+            if simple and len(set(tnames)) == len(tnames):
+                iff = st.body[0]
+                stored = {n.id for b in iff.body for n in ast.walk(b) if isinstance(n, ast.Name) and isinstance(n.ctx, (ast.Store, ast.Del))}
+                chain = [copy.deepcopy(x) for x in st.orelse]
+                for cells in reversed(rows):
+                    sub, assigns = {}, []
+                    for nm, x in zip(tnames, cells):
+                        if (isinstance(x, ast.Constant) or _signed_literal(x)) and nm not in stored:
+                            sub[nm] = x
+                        else:
+                            assigns.append(ast.Assign(targets=[ast.Name(id=nm, ctx=ast.Store())], value=copy.deepcopy(x), lineno=st.lineno))
+                    test = _SubstName(sub).visit(copy.deepcopy(iff.test)) if sub else copy.deepcopy(iff.test)
+                    body = [(_SubstName(sub).visit(copy.deepcopy(b)) if sub else copy.deepcopy(b)) for b in iff.body[:-1]] or [ast.Pass()]
+                    chain = assigns + [ast.If(test=test, body=body, orelse=chain)]
+                out = []
+                for c_ in chain:
+                    ast.copy_location(c_, st)
+                    ast.fix_missing_locations(c_)
+                    out.extend(self._stmt(c_, cls, depth))
+                return out
         # a loop over a short display of rows `for a, b in ((x1, y1), (x2, y2))`: the body once per row; constant columns are substituted,
         # the others assigned first
         if isinstance(st, ast.For) and isinstance(st.iter, (ast.Tuple, ast.List)) and isinstance(st.target, ast.Tuple) \
@@ -2236,14 +2300,27 @@ def _field_class(repo, cls, field: str):
     return res
 
 
-def _class_of_expr(repo, e, fn):
-    """class constructed by expression e (a constructor call, or a local bound once to one) inside function fn"""
+def _class_of_expr(repo, e, fn, cls=None, depth=1):
+    """class constructed by expression e (a constructor call, or a local bound once to one) inside function fn (a method of cls):
+    `K(..)`, `self.__class__(..)` / `type(self)(..)`, or `self._helper(..)` whose every return is such a construction"""
     if isinstance(e, ast.Call) and A.dotted(e.func) and A.dotted(e.func).split(".")[-1] in repo.classes:
         return repo.classes[A.dotted(e.func).split(".")[-1]]
+    if isinstance(e, ast.Call) and cls is not None:
+        f = e.func
+        if A.dotted(f) == "self.__class__" or (isinstance(f, ast.Call) and A.dotted(f.func) == "type" and len(f.args) == 1
+                                                and A.dotted(f.args[0]) == "self"):
+            return cls
+        if depth > 0 and isinstance(f, ast.Attribute) and isinstance(f.value, ast.Name) and f.value.id == "self" and f.attr.startswith("_"):
+            r = repo.lookup(cls, f.attr)
+            if r is not None and f.attr not in r[0].properties:
+                rets = [n for n in ast.walk(r[1]) if isinstance(n, ast.Return)]
+                ks = {id(k): k for k in (_class_of_expr(repo, x.value, r[1], cls, depth - 1) if x.value is not None else None for x in rets)}
+                if rets and len(ks) == 1 and None not in ks.values():
+                    return next(iter(ks.values()))
     if isinstance(e, ast.Name):
         vals = [n.value for n in ast.walk(fn) if isinstance(n, ast.Assign) and any(isinstance(t, ast.Name) and t.id == e.id for t in n.targets)]
         if len(vals) == 1:
-            return _class_of_expr(repo, vals[0], fn) if not isinstance(vals[0], ast.Name) else None
+            return _class_of_expr(repo, vals[0], fn, cls, depth) if not isinstance(vals[0], ast.Name) else None
     return None
 
 
@@ -2358,7 +2435,7 @@ def make_resolver(repo, module, private_only: bool = True, also: Optional[Set[st
         if isinstance(f, ast.Attribute) and isinstance(f.value, ast.Name) and f.value.id not in ("self", "cls") and cur is not None \
                 and f.attr.startswith("_") and not f.attr.startswith("__"):
             # local.<helper>(...) where `local` is bound exactly once, to a fresh instance of a class of the package
-            k = _class_of_expr(repo, f.value, cur)
+            k = _class_of_expr(repo, f.value, cur, cls)
             params = {a.arg for a in cur.args.args + cur.args.kwonlyargs + cur.args.posonlyargs}
             if k is not None and f.value.id not in params:
                 r = repo.lookup(k, f.attr)
